@@ -64,19 +64,57 @@ def sevBit : Sev → Nat
   | .error => 0 | .warning => 1 | .style => 2 | .performance => 3 | .portability => 4 | .information => 5 | .debug => 6
   | .none => 7 | .internal => 8
 
+def kindChar : Line → Char
+  | .empty => 'E' | .checking => 'C' | .notBrace => 'N' | .badJson => 'B' | .obj _ => 'O'
+
+def className : OutClass → String
+  | .clean => "clean" | .skippedLines => "skipped" | .exitNonZero => "exit" | .nonBrace => "nonbrace" | .illTyped => "illtyped"
+
+/-- `idhex|~ / filehex|~ / line|~`, items separated by ","; "." = none -/
+def parseSupps (s : String) : Option (List SimpleSupp) :=
+  if s == "." then some [] else
+  (s.splitOn ",").foldr (fun it acc =>
+    match acc, it.splitOn "/" with
+    | some l, [i, f, n] =>
+      let oi := if i == "~" then some none else (fromHex i).map some
+      let of := if f == "~" then some none else (fromHex f).map some
+      let on := if n == "~" then some none else n.toInt?.map some
+      match oi, of, on with
+      | some oi, some of, some on => some (⟨oi, of, on⟩ :: l)
+      | _, _, _ => none
+    | _, _ => none) (some [])
+
+/-- parse verdicts given for the brace lines, in order: `B` = picojson error / not an object -/
+def parseVerdict (s : String) : Option (Option ObjLine) :=
+  if s == "B" then some none
+  else match parseLine s with
+    | some (.obj ob) => some (some ob)
+    | _ => none
+
 def step (line : String) : String :=
   match fields line with
-  | "relay" :: ec :: mask :: ls =>
-    match ec.toNat?, mask.toNat? with
-    | some ec, some mask =>
-      let lines := ls.map parseLine
-      if lines.any Option.isNone then "bad-op" else
+  | "relay" :: ec :: mask :: file0 :: supps :: text :: verdicts =>
+    -- the whole captured output as raw text; the JSON verdict of every line that starts with `{`, in order
+    match ec.toNat?, mask.toNat?, fromHex file0, parseSupps supps, fromHex text with
+    | some ec, some mask, some file0, some ss, some text =>
+      let vs := verdicts.map parseVerdict
+      if vs.any Option.isNone then "bad-op verdict" else
+      let vs := vs.filterMap id
+      let braces := (splitLines text).filter fun l => rawKind l = .brace
+      if braces.length ≠ vs.length then "bad-op brace-count " ++ toString braces.length else
+      let table := braces.zip vs
+      let parse : Str → Option ObjLine := fun l => match table.find? (fun p => p.1 = l) with | some p => p.2 | none => none
+      let lines := linesOf parse text
       let o : Opts := ⟨fun s => (mask >>> sevBit s) % 2 == 1, ec⟩
-      let r := relay o (lines.filterMap id)
-      (if r.isFailed then "failed" else "ok") ++ " " ++ " ".intercalate ((dedup r.findings).map findingStr)
-    | _, _ => "bad-op"
-  | "ctuinfo" :: mask :: rest =>
-    -- rest: groups separated by "/" : the output lines of each addon (all exit 0)
+      let supp := simpleSupp ss file0
+      let r := relay o lines
+      (if r.isFailed then "failed" else "ok") ++ " " ++ className (outClass o lines) ++ " " ++
+        toString (exitStatus 9 o supp file0 lines) ++ " " ++ boolStr (internalErrorShown o supp file0 lines) ++ " " ++
+        String.ofList ('k' :: lines.map kindChar) ++ " " ++
+        " ".intercalate ((relayShown o supp lines).map findingStr)
+    | _, _, _, _, _ => "bad-op"
+  | "ctuinfo" :: bd :: mask :: rest =>
+    -- rest: groups separated by "/" : the output lines of each addon (all exit 0), in the order the addons ran
     match mask.toNat? with
     | some mask =>
       let groups := (rest.foldl (fun (acc : List (List String)) tok =>
@@ -86,7 +124,7 @@ def step (line : String) : String :=
       let parsed := groups.map (fun g => g.map parseLine)
       if parsed.any (fun g => g.any Option.isNone) then "bad-op" else
       let o : Opts := ⟨fun s => (mask >>> sevBit s) % 2 == 1, 0⟩
-      let info := ctuInfo o (parsed.map (fun g => g.filterMap id))
+      let info := ctuInfo (bd == "1") o (parsed.map (fun g => g.filterMap id))
       "ctu " ++ " ".intercalate (info.map fun ob => match getStr "summary" ob.fields with | some n => toHex n | none => "?")
     | none => "bad-op"
   | _ => "bad-op"
